@@ -188,7 +188,12 @@ func serializeURL(value string) string {
 		case ')':
 			mapped = `\)`
 		default:
-			mapped = string(c)
+			if strings.ContainsRune(nonPrintable, c) {
+				// refused by the tokenizer in an unquoted URL
+				mapped = fmt.Sprintf("\\%X ", c)
+			} else {
+				mapped = string(c)
+			}
 		}
 		chuncks.WriteString(mapped)
 	}
